@@ -64,14 +64,14 @@ Qed.
 (* ------------------------------------------------------------------ line_crlf *)
 Lemma line_crlf_none l : line_crlf l = None -> to_lf l = None.
 Proof.
-  unfold line_crlf. destruct (to_lf l) as [[bf r]|]; [|reflexivity].
+  rewrite line_crlf_unfold. destruct (to_lf l) as [[bf r]|]; [|reflexivity].
   intros H. exfalso. destruct (rev bf) as [|x rb]; [discriminate|]. destruct x; discriminate.
 Qed.
 
 Lemma line_crlf_some l line rest : line_crlf l = Some (Some line, rest) ->
   to_lf l = Some (line ++ [x0d], rest).
 Proof.
-  unfold line_crlf. destruct (to_lf l) as [[bf r]|]; [|discriminate].
+  rewrite line_crlf_unfold. destruct (to_lf l) as [[bf r]|]; [|discriminate].
   destruct (rev bf) as [|x rb] eqn:Er; [discriminate|].
   intros H. assert (Hx : x = x0d /\ line = rev rb /\ rest = r).
   { destruct x; try discriminate. inversion H. repeat split. }
@@ -83,7 +83,7 @@ Qed.
 
 Lemma line_crlf_shorter l o rest : line_crlf l = Some (o, rest) -> (length rest < length l)%nat.
 Proof.
-  unfold line_crlf. destruct (to_lf l) as [[bf r]|] eqn:E; [|discriminate].
+  rewrite line_crlf_unfold. destruct (to_lf l) as [[bf r]|] eqn:E; [|discriminate].
   apply to_lf_shorter in E. intros H.
   assert (rest = r).
   { destruct (rev bf) as [|x rb]; [inversion H; reflexivity|]. destruct x; inversion H; reflexivity. }
